@@ -21,15 +21,20 @@ CXX = "clang++"
 
 CONFIGS = {
     # name: (compile flags for libtins TUs and harness, link flags)
-    "san": (["-std=c++11", "-O1", "-g", "-fsanitize=address,undefined", "-fno-sanitize=alignment",
+    "san": (["-std=c++11", "-O1", "-g", "-fsanitize=address,undefined", "-fno-sanitize=alignment,null,enum",
              "-fsanitize-recover=address,undefined", "-fno-omit-frame-pointer", "-DTINS_STATIC"],
-            ["-fsanitize=address,undefined"]),
+            ["-fsanitize=address,undefined", "-fno-sanitize=alignment,null,enum"]),
     "fast": (["-std=c++11", "-O2", "-DTINS_STATIC"], []),
     "trace": (["-std=c++11", "-O1", "-g", "-fno-omit-frame-pointer", "-DTINS_STATIC",
                "-fsanitize-coverage=trace-loads,trace-stores,edge"], []),
     "tsan": (["-std=c++11", "-O1", "-g", "-fsanitize=thread", "-DTINS_STATIC"], ["-fsanitize=thread"]),
 }
 LIBS = ["-lpcap", "-lcrypto", "-lpthread"]
+
+
+def cfg_dir(config):
+    """build dir of a config: name + hash of its flags, so that a flag change rebuilds"""
+    return os.path.join(tree_dir(), config + "_" + hashlib.sha1(repr(CONFIGS[config]).encode()).hexdigest()[:6])
 
 
 def log(*a):
@@ -104,6 +109,26 @@ def include_dir():
     return inc
 
 
+def ensure_gen():
+    """Tables generated from the CURRENT headers (lib/gen_api.py [+ lib/gen.py if present]) -> build/t_<hash>/gen/"""
+    import fcntl
+    d = os.path.join(tree_dir(), "gen")
+    os.makedirs(d, exist_ok=True)
+    with open(os.path.join(d, ".lock"), "w") as lk:
+        fcntl.flock(lk, fcntl.LOCK_EX)
+        if not os.path.exists(os.path.join(d, "api.inc")):
+            import gen_api
+            t0 = time.time()
+            st = gen_api.generate(d, include_dir())
+            log("generated API tables in %.1fs: %s" % (time.time() - t0, st))
+        if os.path.exists(os.path.join(VERIF, "lib", "gen.py")) and not os.path.exists(os.path.join(d, ".gen_done")):
+            import gen
+            if hasattr(gen, "generate"):
+                gen.generate(d, include_dir())
+            open(os.path.join(d, ".gen_done"), "w").close()
+    return d
+
+
 def _run(cmd, **kw):
     r = subprocess.run(cmd, stdout=subprocess.PIPE, stderr=subprocess.STDOUT, text=True, **kw)
     return r.returncode, r.stdout
@@ -112,7 +137,7 @@ def _run(cmd, **kw):
 def build_lib(config):
     """Compile every libtins TU of the working tree with the config's flags -> libtins.a"""
     import fcntl
-    d = os.path.join(tree_dir(), config)
+    d = cfg_dir(config)
     lib = os.path.join(d, "libtins.a")
     if os.path.exists(lib):
         return lib
@@ -170,7 +195,7 @@ def build_harness(src, config, extra_flags=(), extra_srcs=(), gen_inc=None):
     if gen_inc:
         deps += sorted(glob.glob(os.path.join(gen_inc, "*")))
     key = sha(deps, extra=(" ".join(extra_flags) + config).encode())
-    out = os.path.join(tree_dir(), config, "%s_%s" % (os.path.splitext(src)[0], key))
+    out = os.path.join(cfg_dir(config), "%s_%s" % (os.path.splitext(src)[0], key))
     if os.path.exists(out):
         return out
     t0 = time.time()
@@ -179,7 +204,7 @@ def build_harness(src, config, extra_flags=(), extra_srcs=(), gen_inc=None):
     if gen_inc:
         incs += ["-I", gen_inc]
     # drop stale binaries of the same harness
-    for old in glob.glob(os.path.join(tree_dir(), config, os.path.splitext(src)[0] + "_*")):
+    for old in glob.glob(os.path.join(cfg_dir(config), os.path.splitext(src)[0] + "_*")):
         try:
             os.unlink(old)
         except OSError:
@@ -220,7 +245,7 @@ def run_jobs(binary, tier, base_args=(), deadline_s=None, logname="run", job_tim
 
     def one(k):
         results = []
-        skip = 0
+        crashed = []
         restarts = 0
         while True:
             outp = os.path.join(work, "job%d_%d.json" % (k, restarts))
@@ -229,8 +254,8 @@ def run_jobs(binary, tier, base_args=(), deadline_s=None, logname="run", job_tim
             with open(prog, "wb") as f:
                 f.write(b"\0" * 65536)
             args = [binary, "--tier", tier] + list(base_args) + ["--job", str(k), "--out", outp, "--progress", prog]
-            if skip:
-                args += ["--skip", str(skip)]
+            if crashed:
+                args += ["--skip-list", ",".join(str(x) for x in crashed)]
             if t_end:
                 args += ["--deadline", str(max(1, int(t_end - time.time())))]
             to = job_timeout
@@ -274,9 +299,11 @@ def run_jobs(binary, tier, base_args=(), deadline_s=None, logname="run", job_tim
                                             "detail": tail[-3000:], "case": case, "count": 1}]})
             restarts += 1
             try:
-                skip = int(idx) + 1
+                crashed.append(int(idx))
             except ValueError:
                 break
+            # the re-run repeats the job without the crashing case(s): keep only its results, not the partial ones
+            results = [r for r in results if not r.get("counters")]
             if restarts > max_restarts or (t_end and time.time() > t_end):
                 break
         return results
